@@ -277,7 +277,10 @@ def run(ctx):
         for system in ("jacobi", "democraticheliocentric", "whds", "barycentric"):
             src = mk(Particle, n, ms, vals)
             mid = mk(Particle, n, [0.0] * n, {c: [0.0] * n for c in COMPS})
-            back = mk(Particle, n, ms, {c: [0.0] * n for c in COMPS})
+            # the destination of the inverse is an array with a history: other masses in the active slots i >= 1 (the
+            # inverse maps take the masses of those from the transformed set: "in case of merger/mass change")
+            ms_stale = [m if (i == 0 or i >= na) else m * 1.05 + 1e-9 for i, m in enumerate(ms)]
+            back = mk(Particle, n, ms_stale if system != "jacobi" else ms, {c: [0.0] * n for c in COMPS})
             if system == "jacobi":
                 clib.reb_particles_transform_inertial_to_jacobi_posvel(src, mid, src, U(n), U(na))
                 clib.reb_particles_transform_jacobi_to_inertial_posvel(back, mid, src, U(n), U(na))
@@ -307,7 +310,7 @@ def run(ctx):
             # inverse must return the positions of the posvel inverse (same recurrence, so to rounding; the start
             # values of the test-particle slots are the posvel result so that variants which leave slots alone show)
             var_bad = None
-            back2 = mk(Particle, n, ms, {c: [0.0] * n for c in COMPS})
+            back2 = mk(Particle, n, ms_stale if system != "jacobi" else ms, {c: [0.0] * n for c in COMPS})
             if system == "jacobi":
                 clib.reb_particles_transform_jacobi_to_inertial_pos(back2, mid, src, U(n), U(na))
             else:
@@ -316,6 +319,11 @@ def run(ctx):
                 for i in range(n):
                     d_ = abs(getattr(back2[i], c) - getattr(back[i], c))
                     if not d_ <= tol: var_bad = (c, i, getattr(back2[i], c), getattr(back[i], c))
+            # masses of the active slots i >= 1 come back from the transformed set (both variants)
+            if system != "jacobi":
+                for i in range(1, na):
+                    if back[i].m != ms[i] or back2[i].m != ms[i]:
+                        var_bad = ("m", i, back[i].m, back2[i].m, ms[i])
             if worst > tol or com_bad or m_bad or worst != worst or var_bad:
                 oracle_fail.append({"system": system, "N": n, "N_active": na, "masses": [x.hex() for x in ms], "pos_variant_disagrees": var_bad,
                                     "values": {c: [x.hex() for x in vals[c]] for c in P3 + V3},
